@@ -850,6 +850,73 @@ func (p *journalProp) Gen(r *Rng, tier string, i int) map[string]any {
 	return genJournalCase(r, tier, p.odd && i%5 == 0)
 }
 
+// Prepare (C20 only): the journal ExportToCsv is given is the implementation's own.
+func (p *journalProp) Prepare(in map[string]any) map[string]any {
+	if p.id != "C20" {
+		return in
+	}
+	out := map[string]any{}
+	for k, v := range in {
+		out[k] = v
+	}
+	jr := runJournalImpl(in)
+	var j []any
+	if n := len(jr.prefixes); n > 0 {
+		j = canonJournal(jr.prefixes[n-1][0])
+	} else {
+		j = []any{}
+	}
+	out["journal"] = j
+	out["kind"] = "export"
+	return out
+}
+
+// projection restricts both sides to what the property's theorems speak about, so that a
+// divergence elsewhere in the journal does not alarm this property.
+func (p *journalProp) projection(v any) any {
+	m, _ := v.(map[string]any)
+	if m == nil {
+		return v
+	}
+	switch p.id {
+	case "C20":
+		return map[string]any{"tripsCsv": m["tripsCsv"], "stopTimesCsv": m["stopTimesCsv"]}
+	}
+	var prefixes []any
+	pf, _ := m["prefixes"].([]any)
+	for _, row := range pf {
+		var nrow []any
+		r, _ := row.([]any)
+		for _, jn := range r {
+			trips, _ := jn.([]any)
+			if p.id == "C14" {
+				// stop-time lists by UID
+				byUID := map[string]any{}
+				for _, t := range trips {
+					tm := t.(map[string]any)
+					byUID[fmt.Sprint(tm["uid"])] = tm["sts"]
+				}
+				nrow = append(nrow, byUID)
+			} else {
+				// trip-level accounting, without the stop-time lists
+				var nt []any
+				for _, t := range trips {
+					tm := map[string]any{}
+					for k, x := range t.(map[string]any) {
+						if k != "sts" {
+							tm[k] = x
+						}
+					}
+					nt = append(nt, tm)
+				}
+				nrow = append(nrow, nt)
+			}
+		}
+		prefixes = append(prefixes, nrow)
+	}
+	return map[string]any{"prefixes": prefixes}
+}
+
 func (p *journalProp) Check(in map[string]any, model json.RawMessage) Verdict {
 	var v Verdict
 	jr := runJournalImpl(in)
@@ -858,7 +925,33 @@ func (p *journalProp) Check(in map[string]any, model json.RawMessage) Verdict {
 		v.Disagree = "model reply unreadable: " + err.Error()
 		return v
 	}
-	v.Disagree = diff("", m, normAny(journalProjection(jr)))
+	mp, ip := p.projection(m), p.projection(normAny(journalProjection(jr)))
+	if p.id == "C14" {
+		// compare the lists of the trips both sides hold (which trips are present is C15's business)
+		mpf, _ := mp.(map[string]any)["prefixes"].([]any)
+		ipf, _ := ip.(map[string]any)["prefixes"].([]any)
+		for i := range mpf {
+			if i >= len(ipf) {
+				break
+			}
+			mr, _ := mpf[i].([]any)
+			ir, _ := ipf[i].([]any)
+			for w := range mr {
+				if w >= len(ir) {
+					break
+				}
+				mm, _ := mr[w].(map[string]any)
+				im, _ := ir[w].(map[string]any)
+				for uid, msts := range mm {
+					if ists, ok := im[uid]; ok && v.Disagree == "" {
+						v.Disagree = diff(fmt.Sprintf(".prefixes[%d][%d][%s].sts", i, w, uid), normAny(msts), normAny(ists))
+					}
+				}
+			}
+		}
+	} else {
+		v.Disagree = diff("", normAny(mp), normAny(ip))
+	}
 	vi, tags := p.oracle(in, jr)
 	v.Violations = vi
 	v.Tags = tags
